@@ -172,6 +172,13 @@ def explore_body(ip, thunk, context_free=True):
             out = ("val", v)
         except PyRaise as e:
             out = ("raise", e.kind)
+        except Unsupported:
+            # the expression is explored without the caller's path condition: a case of it that left the subset matters
+            # only if the caller's path can take it
+            here = z3.And(p.pc[base:]) if len(p.pc) > base else z3.BoolVal(True)
+            if context_free and not outer.engine.no_feasibility and not outer.feasible(here):
+                return
+            raise
         finally:
             ip.assumptions_used |= sub.assumptions_used
             ip.inlined |= sub.inlined
